@@ -329,6 +329,9 @@ mod worker {
             self.open_and_send_settings().await?;
 
             loop {
+                #[cfg(feature = "verif-hooks")]
+                crate::verif::DRIVER_LOOP_ITERATIONS.fetch_add(1, std::sync::atomic::Ordering::Relaxed);
+
                 tokio::select! {
                     result = Self::accept_uni(&self.quic_connection,
                                               &ready_uni_h3_streams.0,
@@ -421,6 +424,9 @@ mod worker {
             let stream_id = stream_quic.id();
             debug!("New incoming uni stream ({})", stream_id);
 
+            #[cfg(feature = "verif-hooks")]
+            crate::verif::STREAMS_SPAWNED.fetch_add(1, std::sync::atomic::Ordering::Relaxed);
+
             let ready_uni_h3_streams = ready_uni_h3_streams.clone();
             let ready_uni_wt_streams = ready_uni_wt_streams.clone();
 
@@ -475,6 +481,9 @@ mod worker {
 
             let stream_id = stream_quic.id();
             debug!("New incoming bi stream ({})", stream_id);
+
+            #[cfg(feature = "verif-hooks")]
+            crate::verif::STREAMS_SPAWNED.fetch_add(1, std::sync::atomic::Ordering::Relaxed);
 
             let ready_bi_h3_streams = ready_bi_h3_streams.clone();
             let ready_bi_wt_streams = ready_bi_wt_streams.clone();
